@@ -10,7 +10,10 @@
 //                  between the first and later saves; its content may not).
 #include "battery.hpp"
 #include "cases.hpp"
+#include "graph.hpp"
 #include "observe.hpp"
+
+#include "Particles.hpp"
 
 using namespace nifly;
 using namespace vf;
@@ -52,28 +55,114 @@ bool canonFile(const std::string& bytes, NifFile& live, std::string& out, std::s
 	return true;
 }
 
+// Edits applied to the loaded/built model before the first save ("loaded or edited model"):
+// detaching sub-graphs, deleting blocks, rotating the block order, adding nodes.
+std::string editModel(NifFile& nif, Tape& t) {
+	auto& hdr = nif.GetHeader();
+	std::string log;
+	uint32_t n = t.u8() % 3;
+	for (uint32_t e = 0; e < n; e++) {
+		uint32_t nb = hdr.GetNumBlocks();
+		if (nb < 2)
+			break;
+		switch (t.u8() % 4) {
+			case 0: { // clear one non-empty child reference: the sub-graph behind it becomes loose
+				uint32_t start = t.u16() % nb;
+				for (uint32_t k = 0; k < nb; k++) {
+					auto b = hdr.GetBlock<NiObject>((start + k) % nb);
+					if (b->HasType<NiShape>() || b->HasType<NiParticleSystem>())
+						continue; // shapes cache pointers to their data; particle systems mirror one reference in two members
+					std::set<NiRef*> refs;
+					b->GetChildRefs(refs);
+					std::vector<NiRef*> ne;
+					for (auto r : refs)
+						if (!r->IsEmpty())
+							ne.push_back(r);
+					if (ne.empty())
+						continue;
+					// choose by index value (set order is by address)
+					std::sort(ne.begin(), ne.end(), [](NiRef* a, NiRef* b2) { return a->index < b2->index; });
+					ne[t.u8() % ne.size()]->Clear();
+					log += "clear-ref(" + std::string(b->GetBlockName()) + "); ";
+					break;
+				}
+				break;
+			}
+			case 1: { // delete a block (never geometry data: NiGeometry caches a raw pointer to it)
+				uint32_t id = 1 + t.u16() % (nb - 1);
+				auto b = hdr.GetBlock<NiObject>(id);
+				// (Oblivion tangent-space extra data is re-created by the writer when missing: not deleted here)
+				if (!b || b->HasType<NiGeometryData>() || b->HasType<NiBinaryExtraData>() || b == nif.GetRootNode())
+					break;
+				hdr.DeleteBlock(id);
+				log += "delete-block; ";
+				break;
+			}
+			case 2: { // rename a node (new header string, the old one may become unused)
+				auto nodes = nif.GetNodes();
+				if (nodes.empty())
+					break;
+				nif.SetNodeName(nif.GetBlockID(nodes[t.u8() % nodes.size()]), "renamed_by_edit");
+				log += "rename-node; ";
+				break;
+			}
+			default:
+				if (nif.AddNode("edit_node", MatTransform()))
+					log += "add-node; ";
+				break;
+		}
+	}
+	return log;
+}
+
 Verdict prop(Tape& t, Run& run) {
-	FileCase c = decodeFileCase(t, run);
-	if (!c.ok) {
-		run.exclude(c.why);
-		return OK;
+	FileCase c;
+	NifFile nif;
+	const uint8_t srcKind = t.u8() % 4;
+	if (srcKind == 3) {
+		// generated scene graph (collision chains, controller chains, loose blocks, permuted order)
+		static const size_t vers[] = {4, 5, 6, 7, 8, 11};
+		size_t vi = vers[t.u8() % 6];
+		GraphInfo gi = buildGraph(nif, t, vi);
+		c.ok = true;
+		c.kind = "graph";
+		c.label = gi.str();
+		c.version = versions()[vi].name;
+		c.populated = true;
+		c.hash = fnv1a(std::string(reinterpret_cast<const char*>(run.curTape), run.curTapeLen));
+		saveBytes(nif, c.bytes, rawOpts());
+		// continue with a freshly loaded model so that the case is a plain file + edits
+		if (loadBytes(nif, c.bytes) != 0) {
+			run.exclude("generated graph not accepted by Load");
+			return OK;
+		}
+	}
+	else {
+		c = decodeFileCase(t, run);
+		if (!c.ok) {
+			run.exclude(c.why);
+			return OK;
+		}
+		if (loadBytes(nif, c.bytes) != 0) {
+			run.exclude("file not accepted by Load");
+			return OK;
+		}
 	}
 	const bool useDefault = t.coin();
 	const bool interleave = !t.chance(64); // mostly query between saves
 	const int saves = 3;
-
-	NifFile nif;
-	if (loadBytes(nif, c.bytes) != 0) {
-		run.exclude("file not accepted by Load");
-		return OK;
-	}
+	std::string edits;
+	if (c.kind == "graph" || c.kind == "corpus")
+		edits = editModel(nif, t);
+	if (!edits.empty())
+		run.cls("edited-before-saving");
 	const std::string mode = useDefault ? "default" : "raw";
 	run.cls("mode:" + mode);
 	run.cls("kind:" + c.kind);
 	run.cls("version:" + c.version);
-	const std::string sigBase = "C02:" + (c.kind == "synthN" ? std::string("multi") : c.label) + "@" + c.version + ":" + mode;
+	const std::string sigBase = "C02:" + (c.kind == "synthN" ? std::string("multi") : c.kind == "graph" ? std::string("graph") : c.label) + "@" + c.version + ":" + mode;
 	auto detail = [&](const std::string& what, const std::string& diff) {
-		return J().s("kind", c.kind).s("subject", c.label).s("version", c.version).s("mode", mode).s("what", what).s("first_difference", diff).s("nif_hex", to_hex(c.bytes)).str();
+		return J().s("kind", c.kind).s("subject", c.label).s("version", c.version).s("mode", mode).s("edits", edits).s("what", what).s("first_difference", diff).s("nif_hex", to_hex(c.bytes)).str();
 	};
 	const size_t nShapes = nif.GetShapes().size();
 	if (nShapes >= 1 || nif.GetHeader().GetNumBlocks() >= 3) {
@@ -147,7 +236,7 @@ void deterministic(Run& run, const std::function<void(const std::vector<uint8_t>
 	size_t n = corpus(run.args.corpus).size();
 	for (size_t i = 0; i < n; i++)
 		for (uint8_t mode = 0; mode < 2; mode++)
-			feed({1, static_cast<uint8_t>(i), mode, 0});
+			feed({0, 1, static_cast<uint8_t>(i), mode, 0, 0});
 	// every type x version x patterns; mode alternates with the pattern byte
 	auto& types = registeredTypes();
 	static const uint8_t patterns[] = {0xA1, 0xC8, 0x00, 0x95, 0xE1, 0xFE};
@@ -155,8 +244,8 @@ void deterministic(Run& run, const std::function<void(const std::vector<uint8_t>
 	for (size_t ti = 0; ti < types.size(); ti++)
 		for (size_t vi = 0; vi < versions().size(); vi++)
 			for (size_t p = 0; p < np; p++) {
-				std::vector<uint8_t> tape = {0, static_cast<uint8_t>(ti & 255), static_cast<uint8_t>(ti >> 8), static_cast<uint8_t>(vi)};
-				tape.resize(4 + 400, patterns[p]);
+				std::vector<uint8_t> tape = {0, 0, static_cast<uint8_t>(ti & 255), static_cast<uint8_t>(ti >> 8), static_cast<uint8_t>(vi)};
+				tape.resize(5 + 400, patterns[p]);
 				feed(tape);
 			}
 }
